@@ -32,7 +32,9 @@ func genCmd(t *simrt.Tape, pipeStage int) string {
 	if pipeStage == 2 {
 		return []string{"true", "false", "echo " + w}[t.Choose(simrt.StGen, 3, 0)]
 	}
-	switch t.Choose(simrt.StGen, 13, 0) {
+	switch t.Choose(simrt.StGen, 14, 0) {
+	case 13:
+		return "exit " + strconv.Itoa(t.Choose(simrt.StGen, 3, 0))
 	case 0:
 		return "true"
 	case 1:
@@ -73,7 +75,7 @@ func genScript(t *simrt.Tape) string {
 		k := 1 + t.Choose(simrt.StGen, 3, 0)
 		for j := 0; j < k; j++ {
 			if j > 0 {
-				b.WriteString(" && ")
+				b.WriteString([]string{" && ", " && ", " || "}[t.Choose(simrt.StGen, 3, 0)])
 			}
 			m := 1
 			if t.Choose(simrt.StGen, 4, 0) == 1 {
